@@ -132,8 +132,14 @@ def run(ctx):
         # comma-separated list)
         hdr = ['Hash: ' + hname.upper(), 'Hash: ' + hname.upper() + eol + 'Hash: MD5', 'Hash: RIPEMD160,' + hname.upper(), 'Hash: ' + hname.upper()][n % 4]
         framed = '-----BEGIN PGP SIGNED MESSAGE-----' + eol + hdr + eol + eol + esc + eol + armor.replace('\n', eol)
+        if n % 8 == 7:
+            # no Hash header at all: MD5 is implied (RFC 4880 section 7) - sign with MD5 and frame without the header
+            hname = 'md5'
+            pkt, hin = build.sig_packet(fk, 0x01, hname, [], [], canon, created=1262310000 + n)
+            armor = armor_block('SIGNATURE', pkt)
+            framed = '-----BEGIN PGP SIGNED MESSAGE-----' + eol + eol + esc + eol + armor.replace('\n', eol)
         e = {'k': 'foreign', 'text': codepoints(text), 'framed': codepoints(framed), 'sig': octets(pkt), 'signed_over': octets(hin), 'cls': 'foreign',
-             'eol': ('crlf' if eol == '\r\n' else 'lf') + ['', ' two-hash-lines', ' hash-list', ''][n % 4], 'trailing_blank': any(l.rstrip(' \t') != l for l in lines)}
+             'eol': ('crlf' if eol == '\r\n' else 'lf') + (['', ' two-hash-lines', ' hash-list', ''][n % 4] if n % 8 != 7 else ' no-hash-header-md5'), 'trailing_blank': any(l.rstrip(' \t') != l for l in lines)}
         try:
             m2 = pgpy.PGPMessage.from_blob(framed)
             e.update({'raised': False, 'reread': codepoints(m2.message), 'verdict': 'truthy' if fpub.verify(m2) else 'falsy'})
